@@ -1,11 +1,12 @@
 package pathint
 
 import (
+	"astverif/bitdom"
 	"fmt"
-	"os"
 	"go/constant"
 	"go/token"
 	"go/types"
+	"os"
 	"sort"
 	"strings"
 
@@ -49,6 +50,8 @@ type Outcome struct {
 	Preds   map[string]bool
 	Marks   map[string]bool
 	Events  []Event
+	// Defs: bit-level definitions of opaque symbols (TrackBits)
+	Defs map[string]bitdom.Vec
 	// ParamConds: truth of parameter-rooted boolean cells assumed on this path
 	ParamConds map[string]bool
 	ErrNil     Tri
@@ -89,8 +92,10 @@ type Interp struct {
 	KeyGuards bool
 	// MergeIfs: if-conversion of branches whose arms rejoin (see merge.go).
 	MergeIfs bool
-	indConds map[string]*Cond
-	pdoms    map[*ssa.Function]map[*ssa.BasicBlock]*ssa.BasicBlock
+	// TrackBits: integer and boolean values also carry exact bit vectors (see bits.go).
+	TrackBits bool
+	indConds  map[string]*Cond
+	pdoms     map[*ssa.Function]map[*ssa.BasicBlock]*ssa.BasicBlock
 	// AssumeNoTruncation: narrowing integer conversions keep their linear form (documented domain
 	// restriction "lengths fit their fields").
 	AssumeNoTruncation bool
@@ -101,7 +106,7 @@ type Interp struct {
 	NonZeroLo map[string]int64
 	// FieldInvs: type-level invariants "objects of type T have field F >= Lo", assumed for objects the
 	// analysed function did not create and checked wherever such an object is published (hook Publish).
-	FieldInvs []FieldInv
+	FieldInvs  []FieldInv
 	Diag       []string
 	counter    int
 	candidates map[*ssa.BasicBlock][]*ssa.Phi
@@ -235,20 +240,22 @@ type State struct {
 	Trace   []string
 	loops   map[*ssa.BasicBlock]map[string]lin.Form // header -> iterator id -> cursor symbol at header
 	marks   map[string]int                          // progress marks (consume, delete): count on this path
-	loopMk  map[*ssa.BasicBlock]map[string]int       // marks at loop entry
-	phaseB  map[*ssa.BasicBlock]bool                 // loop headers currently explored on a havocked state
+	loopMk  map[*ssa.BasicBlock]map[string]int      // marks at loop entry
+	phaseB  map[*ssa.BasicBlock]bool                // loop headers currently explored on a havocked state
 	inA     map[*ssa.BasicBlock]bool
 	acc     map[*ssa.BasicBlock]*loopAcc
-	cand    map[*ssa.BasicBlock][]*ssa.Phi           // candidate invariants len(phi)==0 assumed at this header
+	cand    map[*ssa.BasicBlock][]*ssa.Phi // candidate invariants len(phi)==0 assumed at this header
 	// loop summation (engine A)
-	sum       map[*ssa.BasicBlock]*sumCollector
-	sumStart  map[*ssa.BasicBlock]sumMark
-	loopIndex map[ssa.Value]bool
-	Events    []Event
+	sum            map[*ssa.BasicBlock]*sumCollector
+	sumStart       map[*ssa.BasicBlock]sumMark
+	loopIndex      map[ssa.Value]bool
+	Events         []Event
+	Defs           map[string]bitdom.Vec // TrackBits: opaque symbol -> its bits (copy-on-write)
+	defsOwned      bool
 	noZeroTripFork bool
-	stops     []stopFrame // merge points the current path is being run up to (innermost last)
-	reqs      *[]Requirement
-	depth   int
+	stops          []stopFrame // merge points the current path is being run up to (innermost last)
+	reqs           *[]Requirement
+	depth          int
 }
 
 type pendingAdv struct {
@@ -295,6 +302,8 @@ func (st *State) clone() *State {
 	}
 	// phaseB / inA / acc / cand / sum / sumStart / loopIndex are copy-on-write (replaced, never mutated in place)
 	n.Events = append([]Event{}, st.Events...)
+	n.defsOwned = false
+	st.defsOwned = false
 	return &n
 }
 
@@ -1627,6 +1636,19 @@ func (st *State) edgePending(c *Cond, tv bool) {
 		return
 	}
 	delete(st.pending, key)
+	if st.ip.TrackBits {
+		// the fetch succeeds iff the bytes are there
+		cv, ok1 := st.mem[p.it+".#cur"]
+		lv, ok2 := st.mem[p.it+".#len"]
+		if ok1 && ok2 && cv.K == KInt && lv.K == KInt {
+			room := lv.F.Sub(cv.F).Sub(p.adv)
+			if isNil {
+				st.Facts = append(st.Facts, lin.Fact{F: room})
+			} else {
+				st.Facts = append(st.Facts, lin.Fact{F: room.Scale(-1).AddC(-1)})
+			}
+		}
+	}
 	if isNil {
 		if cv, ok := st.mem[p.it+".#cur"]; ok && cv.K == KInt {
 			st.mem[p.it+".#cur"] = IntVal(cv.F.Add(p.adv))
@@ -1712,6 +1734,9 @@ func (st *State) makeOutcome(f *ssa.Function, res []Val) *Outcome {
 	}
 	// facts and predicates that speak only about visible symbols
 	vis := func(sym string) bool {
+		if st.ip.TrackBits {
+			return true // layouts need the whole path condition (conditions on fetched bits)
+		}
 		if strings.HasPrefix(sym, "$") || strings.HasPrefix(sym, "len($") || strings.HasPrefix(sym, "cap($") {
 			return true
 		}
@@ -1768,6 +1793,10 @@ func (st *State) makeOutcome(f *ssa.Function, res []Val) *Outcome {
 		}
 	}
 	o.Events = append([]Event{}, st.Events...)
+	if st.ip.TrackBits {
+		o.Defs = st.Defs
+		st.defsOwned = false
+	}
 	o.ParamConds = map[string]bool{}
 	for k, v := range st.Preds {
 		if (strings.HasPrefix(k, "$") || strings.HasPrefix(k, "nil:$") || strings.HasPrefix(k, "isa:$")) && !strings.Contains(k, "~") {
@@ -1874,6 +1903,13 @@ func outcomeKey(o *Outcome, st *State) string {
 	if st.ip.KeyGuards {
 		sb.WriteString("|")
 		sb.WriteString(strings.Join(st.ip.canonConstraints(o.Facts, o.NE), "&"))
+	}
+	if st.ip.TrackBits {
+		// layouts: outcomes that fetch or emit differently are different layouts
+		sb.WriteString("|")
+		for _, e := range o.Events {
+			fmt.Fprintf(&sb, "%s@%s:%s:%s;", e.Kind, e.Off.String(), e.Width.String(), e.ID)
+		}
 	}
 	return sb.String()
 }
